@@ -31,6 +31,16 @@ fixed = [
       what='fixed: property=C18 84f9ce0 qset([1,2,3,4])[0:2]=[7,7] produced [7,7,3,4]'),
  dict(property='C01', status='fixed', commit='677ec4e', key='C01.R8/pytableaux.logics.cpl:Rules.IdentityIndiscernability._get_node_targets',
       what='fixed: property=C01 677ec4e IdentityIndiscernability substituted into predicate nodes at other worlds: K reported a=b, PFa |- Fb valid'),
+ dict(property='C18', status='fixed', commit='e589df3', key='C18.R6/linqset/__setitem__',
+      what='fixed: property=C18 e589df3 (same defect, folded step check) linqset item assignment left the hash table stale'),
+ dict(property='C18', status='fixed', commit='84f9ce0', key='C18.R5/qset/__setitem__',
+      what='fixed: property=C18 84f9ce0 (same defect, folded step check) qset slice assignment accepted repeated arriving values'),
+ dict(property='C09', status='fixed', commit='73d1a2e', key='C09.R4/NodeCount.isleast',
+      what='fixed: property=C09 73d1a2e NodeCount.isleast subscripted the defaultdict counter and so inserted a zero count: K reported La, MLb, MNa |- b invalid or valid depending on premise order / is_rank_optim'),
+ dict(property='C02', status='fixed', commit='73d1a2e', key='C02.R4/NodeCount.isleast',
+      what='fixed: property=C02 73d1a2e same defect: box-type nodes starved, "invalid" verdicts from unsaturated branches'),
+ dict(property='C14', status='fixed', commit='e7c517e', key='C14.R4/DequeCache.__setitem__/raises IndexError: pop from an empty deque',
+      what='fixed: property=C14 e7c517e ITEM_CACHE_SIZE=0: DequeCache.__setitem__ evicted from an empty deque, every lexical construction raised IndexError'),
  dict(property='C13', status='fixed', commit='f7615b2', key='C13.R2/DefaultParser._read_predicated/self.predicates.add',
       what='fixed: property=C13 f7615b2 Parser(predicates=Predicates.EMPTY)(\'Fm\') raised AttributeError (Frozen has no add)'),
 ]
